@@ -307,6 +307,17 @@ class Program:
                 st.heap[oid] = ArrObj(kind, arr=z3.Array(name, IntS, kind_sort(kind)), length=n,
                                       origin=origin, name=name, pykind='cblock')
                 return Ptr(oid, 0)
+            if desc == 'series_nd':
+                # multivariate series: r points of nd values each, stored row-major in one flat array;
+                # s[i] is a view of nd consecutive values (what a 2-D NumPy array row is)
+                n = z3.Int(name + '_len')
+                nd = z3.Int(name + '_ndim')
+                st.assume(z3.And(n >= 0, nd >= 1, nd <= 2 ** 10))
+                oid = st.new_oid('A')
+                o = ArrObj('rowsflat', arr=z3.Array(name, IntS, Val), length=n, origin=origin, name=name, pykind='ndarray')
+                o.nd = nd
+                st.heap[oid] = o
+                return Ref(oid)
             if desc == 'idxarr':
                 n = z3.Int(name + '_len')
                 st.assume(n >= 0)
